@@ -20,6 +20,7 @@ class Sim:
         self.spec = S.clone(spec)
         self.world = S.build_world(self.spec, salt) if build else None
         self.n_updates = 0
+        self.expect = None
 
     # -- helpers ---------------------------------------------------------------------------------
     def obj(self, name):
@@ -44,6 +45,10 @@ class Sim:
         v = change["value"]
         if v[0] in ("ref", "refs"):
             return self._link_value(v)
+        if v[0] == "raw":
+            return copy.deepcopy(v[1])
+        if v[0] == "rawrefs":
+            return [self.obj(n) for n in v[1]] + [v[2]]
         return self._value(v, change.get("src"), change.get("label"))
 
     def _mirror(self, change):
@@ -104,52 +109,79 @@ class Sim:
         for ch in op["changes"]:
             self._mirror(ch)
 
+    @staticmethod
+    def builtin_list_effect(names, m, args):
+        """What the built-in list does (on names): -> (new names, returned name); raises like list does."""
+        names = list(names)
+        ret = None
+        if m == "append":
+            names.append(args[0])
+        elif m == "insert":
+            names.insert(args[0], args[1])
+        elif m in ("extend", "iadd"):
+            names.extend(args[0])
+        elif m == "imul":
+            names *= args[0]
+        elif m == "pop":
+            ret = names.pop(*args)
+        elif m == "remove":
+            names.remove(args[0])
+        elif m == "delitem":
+            del names[args[0]]
+        elif m == "setitem":
+            names[args[0]] = args[1]
+        elif m == "clear":
+            names.clear()
+        else:
+            raise AssertionError(m)
+        return names, ret
+
     def op_list(self, op):
         """A list-mutating call on obj.attr, mirrored with the built-in list on names."""
         o = self.obj(op["obj"])
         attr, m = op["attr"], op["method"]
-        lst = getattr(o, attr)
-        names = list(self.sattrs(op["obj"])[attr][1])
         args = op.get("args", [])
+        for a in ([args[0]] if m in ("append", "remove") else [args[1]] if m in ("insert", "setitem")
+                  else args[0] if m in ("extend", "iadd") else []):
+            self.obj(a)
+        cur = list(self.sattrs(op["obj"])[attr][1])
+        try:
+            new_names, exp_ret = self.builtin_list_effect(cur, m, args)
+            self.expect = {"exc": None, "ret": exp_ret, "names": new_names}
+        except Exception as e:
+            new_names = None
+            self.expect = {"exc": type(e).__name__, "ret": None, "names": cur}
+        lst = getattr(o, attr)
         ret = None
         if m == "append":
             lst.append(self.obj(args[0]))
-            names.append(args[0])
         elif m == "insert":
             lst.insert(args[0], self.obj(args[1]))
-            names.insert(args[0], args[1])
         elif m == "extend":
             lst.extend([self.obj(n) for n in args[0]])
-            names.extend(args[0])
         elif m == "iadd":
             lst += [self.obj(n) for n in args[0]]
             setattr(o, attr, lst)
-            names += args[0]
         elif m == "imul":
             lst *= args[0]
             setattr(o, attr, lst)
-            names *= args[0]
         elif m == "pop":
             ret = lst.pop(*args)
-            names.pop(*args)
         elif m == "remove":
             target = self.obj(args[0])
             if op.get("by") == "wrapper":
                 target = next((w for w in lst if w == target), target)
             lst.remove(target)
-            names.remove(args[0])
         elif m == "delitem":
             del lst[args[0]]
-            del names[args[0]]
         elif m == "setitem":
             lst[args[0]] = self.obj(args[1])
-            names[args[0]] = args[1]
         elif m == "clear":
             lst.clear()
-            names.clear()
         else:
             raise AssertionError(m)
-        self.sattrs(op["obj"])[attr] = ["refs", names]
+        if new_names is not None:
+            self.sattrs(op["obj"])[attr] = ["refs", new_names]
         return ret
 
     def op_create(self, op):
@@ -173,3 +205,93 @@ class Sim:
             setattr(o, op["attr"], self._link_value(v))
         else:
             setattr(o, op["attr"], self._value(v, self.spec["objs"][op["obj"]].get("src", {}).get(op["attr"])))
+
+    def op_assign_self(self, op):
+        """obj.attr = obj.attr (the very same list object)."""
+        o = self.obj(op["obj"])
+        setattr(o, op["attr"], getattr(o, op["attr"]))
+
+    def op_second_system(self, op):
+        """Try to create a second System over objects of the first one (must be refused)."""
+        from efootprint.core.system import System
+        if "new_up" in op:
+            self.create(op["new_up"]["name"], "UsagePattern", op["new_up"]["attrs"])
+            ups = [self.obj(op["new_up"]["name"])]
+        else:
+            ups = [self.obj(n) for n in op["ups"]]
+        env.IDS.salt = self.world.salt
+        env.IDS.pending_name = op["name"]
+        try:
+            System(op["name"], usage_patterns=ups)
+        finally:
+            env.IDS.pending_name = None
+            if "new_up" in op:
+                self.obj(op["new_up"]["name"]).self_delete()
+                self.forget(op["new_up"]["name"])
+
+    # -- fault ops (never mirrored: they are expected to be refused) ------------------------------
+    def op_bad_set(self, op):
+        o = self.obj(op["obj"])
+        setattr(o, op["attr"], self._new_for(op))
+
+    def op_bad_group(self, op):
+        from efootprint.abstract_modeling_classes.modeling_update import ModelingUpdate
+        changes = []
+        for ch in op["changes"]:
+            o = self.obj(ch["obj"])
+            changes.append([getattr(o, ch["attr"]), self._new_for(ch)])
+        ModelingUpdate(changes)
+
+    def op_bad_list(self, op):
+        o = self.obj(op["obj"])
+        lst = getattr(o, op["attr"])
+        bad = self.obj(op["bad"]) if isinstance(op["bad"], str) else op["bad"]
+        m = op["method"]
+        if m == "append":
+            lst.append(bad)
+        elif m == "insert":
+            lst.insert(0, bad)
+        elif m == "extend":
+            lst.extend([bad])
+        elif m == "iadd":
+            lst += [bad]
+            setattr(o, op["attr"], lst)
+        elif m == "setitem":
+            lst[0] = bad
+        else:
+            raise AssertionError(m)
+
+    def op_bad_construct(self, op):
+        """Construct, in a scratch copy of the world, an object like `like` with one invalid parameter."""
+        scratch = S.build_world(self.spec, self.salt + ":scratch")
+        sp = S.clone(self.spec)
+        name = "bad_" + op["like"]
+        o = copy.deepcopy(sp["objs"][op["like"]])
+        sp["objs"][name] = o
+        sp["order"].append(name)
+        cls = S.classes()[o["cls"]]
+        kwargs = {}
+        for pname, kind in S.params_of(o["cls"]):
+            if kind == "name":
+                continue
+            v = o["attrs"].get(pname)
+            if pname == op["attr"]:
+                tmp = Sim.__new__(Sim)
+                tmp.world, tmp.spec = scratch, sp
+                kwargs[pname] = Sim._new_for(tmp, {"value": op["value"]})
+            elif kind == "str":
+                kwargs[pname] = v[1]
+            elif kind == "link":
+                kwargs[pname] = scratch.objs[v[1]]
+            elif kind == "list":
+                kwargs[pname] = [scratch.objs[n] for n in v[1]]
+            elif kind == "optq" and (v is None or v[0] == "e"):
+                kwargs[pname] = None
+            else:
+                kwargs[pname] = make_value(v, o.get("src", {}).get(pname))
+        env.IDS.salt = scratch.salt
+        env.IDS.pending_name = name
+        try:
+            cls(name, **kwargs)
+        finally:
+            env.IDS.pending_name = None
